@@ -84,16 +84,51 @@ def explicit_all(tier, seed):
                "opts": {"perturb": {"p": rng.choice([0.1, 0.25, 0.5]), "sleep_p": 0.3, "max_sleep": 0.001, "seed": j, "files": ["state.py"]}}}
 
 
+def pending_span_cases(tier, seed):
+    """A non-terminal operation that program order visits BEFORE completed ones: a callback created first and awaited last, with
+    logged steps and waits in between, still outstanding while the execution is resumed several times by the timers."""
+    rng = random.Random(seed * 17 + 3)
+    for j in range(12 if tier == "quick" else 120):
+        t = [0]
+
+        def log():
+            t[0] += 1
+            return {"k": "log", "tag": "L%d" % t[0]}
+
+        between = [log()]
+        for _ in range(rng.randrange(2, 5)):
+            between += [rng.choice([{"k": "step", "val": 1}, {"k": "step", "val": 2, "log": True}]), log(), {"k": "wait", "s": 1}, log()]
+        pre = [log(), {"k": "step", "val": 0}] if j % 2 else []
+        nb = len(pre)
+        body = pre + [{"k": "cb", "between": between}, log(), {"k": "step", "val": 9, "log": True}, log()]
+        if j % 3 == 2:  # a second outstanding operation of another kind, started before the completed ones
+            body = [{"k": "par", "branches": [{"body": body}, {"body": [{"k": "cb"}]}], "cfg": {"preset": "all_completed"}}]
+            cbp, other = "0/b0/%d" % nb, "0/b1/0"
+        else:
+            cbp, other = str(nb), None
+        world = {"complete": {cbp: {"when": "after_pendings", "n": rng.choice([3, 5, 9]), "status": "SUCCEEDED", "result": '"late"'}}, "timers": "all"}
+        if other:
+            world["complete"][other] = {"when": "after_pendings", "n": 12, "status": "SUCCEEDED", "result": '"later"'}
+        yield {"label": "outstanding-op-before-completed-ones", "prog": {"body": body, "logger": True}, "prog_seed": 11700 + j + seed * 1000, "world": world,
+               "pattern": {"p": "crash_enum", "max_points": 10} if j % 4 == 0 else {"p": "plain"},
+               "pages": rng.choice([{}, {"first_page": 1, "page_size": 2}, {"first_page": 0, "page_size": 3}]), "max_inv": 30}
+
+
+def explicit_all2(tier, seed):
+    yield from explicit_all(tier, seed)
+    yield from pending_span_cases(tier, seed)
+
+
 SPEC = Spec(
     PROP,
     level="fault_enumeration",
-    explicit=explicit_all,
+    explicit=explicit_all2,
     quick={"plain": 0, "enum": 0, "rand": 0, "async": 0},
     thorough={"plain": 0, "enum": 0, "rand": 0, "async": 0},
     rule="sequential programs with a log call before/after every unit (steps, steps that log inside, waits, caught failing steps, child "
     "contexts with inner logs/steps/waits, callbacks, wait_for_callback, wait_for_condition, invoke, map/parallel as units) x every "
     "prefix of completed operations that the forced suspensions and enumerated crash points leave behind x splits of the history "
-    "between the event payload and later pages (first page holding 0,1,2,3.. operations, page sizes 1-100). A capturing LoggerInterface "
+    "between the event payload and later pages; plus programs in which an operation that is still outstanding (a callback created first and awaited last) precedes the completed ones in program order, resumed several times (first page holding 0,1,2,3.. operations, page sizes 1-100). A capturing LoggerInterface "
     "installed with set_logger tags records with the invocation. Oracle: a log call at program position p in an invocation whose "
     "history contains a completed operation after p must be silent, every other call must be emitted (all of them in a first "
     "invocation), and emitted records carry executionArn plus parentId / operationId / operationName / attempt of the enclosing "
